@@ -568,6 +568,10 @@ class FileSystemSink(DataSink):
         if encoding is None:
             encoding = self.encoding
 
+        if "type" not in stix_obj or "id" not in stix_obj:
+            # (Content of an unregistered type is not validated.)
+            raise ValueError("Can't store an object which has no 'type' or 'id'")
+
         type_dir = os.path.join(self._stix_dir, stix_obj["type"])
 
         # All versioned objects should have a "modified" property.
